@@ -900,7 +900,8 @@ std::string sqf::parser::preprocessor::impl_default::instance::parse_ppinstructi
             log(err::UnexpectedIfdef(fileinfo.to_diag_info()));
         }
         auto res = m_macros.find(static_cast<std::string>(line));
-        current_file_scope().conditions.push_back({ res != m_macros.end(), fileinfo, fileinfo });
+        // A conditional inside an inactive section stays inactive whatever its condition
+        current_file_scope().conditions.push_back({ allow_write() && res != m_macros.end(), fileinfo, fileinfo });
         return "\n";
     }
     else if (inst == "IFNDEF")
@@ -910,7 +911,8 @@ std::string sqf::parser::preprocessor::impl_default::instance::parse_ppinstructi
             log(err::UnexpectedIfndef(fileinfo.to_diag_info()));
         }
         auto res = m_macros.find(static_cast<std::string>(line));
-        current_file_scope().conditions.push_back({ res == m_macros.end(), fileinfo, fileinfo });
+        // A conditional inside an inactive section stays inactive whatever its condition
+        current_file_scope().conditions.push_back({ allow_write() && res == m_macros.end(), fileinfo, fileinfo });
         return "\n";
     }
     else if (inst == "ELSE")
@@ -921,7 +923,10 @@ std::string sqf::parser::preprocessor::impl_default::instance::parse_ppinstructi
             log(err::UnexpectedElse(fileinfo.to_diag_info()));
             return "";
         }
-        current_file_scope().conditions.back().allow_write = !current_file_scope().conditions.back().allow_write;
+        auto& conditions = current_file_scope().conditions;
+        // The else branch of a conditional inside an inactive section is inactive too
+        bool enclosing_allows_write = conditions.size() < 2 || conditions[conditions.size() - 2].allow_write;
+        conditions.back().allow_write = enclosing_allows_write && !conditions.back().allow_write;
         return "\n";
     }
     else if (inst == "ENDIF")
